@@ -14,6 +14,7 @@ mod dfa;
 mod autspec;
 mod levref;
 mod rangeq;
+mod untrusted;
 
 use ctx::Tier;
 
